@@ -1,7 +1,7 @@
 //@ fn Store::tmp_file
 //@ spec
     ensures res matches Ok(t) ==> t.content().len() == 0,
-//@ closure 1
+//@ closure map_err 1 optional
 |err: IoError| -> (r: Failed)
 //@ fn UpdateError::fatal
 //@ spec
@@ -43,7 +43,7 @@
         // C04: success is reported (and, in the text, the rename is reached) only after the generator
         // has answered Ok(None): a generator error always leaves through `?`
         assert(gen_finished(objects));
-//@ closure 1
+//@ closure map_err 1 optional
 |err: IntoInnerError| -> (r: UpdateError) ensures r is Failed
 //@ beforeloop 1
         let ghost mut yielded: Seq<StoredObject> = Seq::empty();
